@@ -93,13 +93,16 @@ def num_steps_cases(rng, n):
     return out
 
 
-def real_resolve(api, ns, plen, s, d, rec):
+def real_resolve(api, ns, plen, s, d, rec, trivial=False):
     """call the real entry point; ("ok <steps taken>" | "error <kind>", times)"""
     import oqupy
     from oqupy import operators as op
     from oqupy.gradient import compute_gradient_and_dynamics
     from . import oq
     pts = [oq.identity_pt(plen + 2), oq.identity_pt(plen)] if plen is not None else []
+    if trivial:
+        # a process tensor without environment: unlimited length, must not limit the run
+        pts = [oqupy.TrivialProcessTensor(hilbert_space_dimension=2)] + pts
     try:
         if api == "cd":
             dyn = oqupy.compute_dynamics(system=oq.cheap_system(), initial_state=op.spin_dm("z+"),
@@ -185,6 +188,44 @@ def truncated_runs():
             except _Stop:
                 outcome = "raised"
             yield "%s progress_type=%s" % (api, ptype), outcome
+
+
+def resumed_runs():
+    """a user callable fails ONCE in the middle of a run; the computation is called again: the
+    dynamics must then hold the whole grid (no hole where the failed call had already stepped)"""
+    import oqupy
+    from oqupy import operators as op
+    from . import oq
+    for api in ("Tempo", "MeanFieldTempo"):
+        state = {"failed": False}
+
+        def trip(t):
+            if t > 1.1 and not state["failed"]:
+                state["failed"] = True
+                raise _Stop("transient failure")
+
+        if api == "Tempo":
+            def ham(t):
+                trip(t)
+                return 0.5 * op.sigma("x")
+            obj = oqupy.Tempo(oqupy.TimeDependentSystem(ham), oq.cheap_bath(), oq.cheap_params(0.25),
+                              op.spin_dm("z+"), start_time=0.0)
+        else:
+            def hamf(t, a):
+                trip(t)
+                return 0.5 * op.sigma("x") + 0.1 * np.real(a) * op.sigma("z")
+            mfs = oqupy.MeanFieldSystem([oqupy.TimeDependentSystemWithField(hamf)],
+                                        lambda t, st, a: -0.1j * a)
+            obj = oqupy.MeanFieldTempo(mean_field_system=mfs, bath_list=[oq.cheap_bath()],
+                                       initial_state_list=[op.spin_dm("z+")], initial_field=1.0,
+                                       start_time=0.0, parameters=oq.cheap_params(0.25))
+        try:
+            obj.compute(1.5, progress_type="silent")
+            first = "returned"
+        except _Stop:
+            first = "raised"
+        dyn = obj.compute(1.5, progress_type="silent")
+        yield api, first, [float(x) for x in dyn.times]
 
 
 def correspondence(res, tier, rng):
@@ -299,8 +340,9 @@ def correspondence(res, tier, rng):
 
     # how num_steps is resolved (zero steps given explicitly, not given, too long) next to
     # finite process tensors, through the three real entry points
-    for (api, ns, plen, s, d, rec) in num_steps_cases(rng, 8 if tier == "quick" else 40):
-        got_res, got_times = real_resolve(api, ns, plen, s, d, rec)
+    for idx, (api, ns, plen, s, d, rec) in enumerate(num_steps_cases(rng, 8 if tier == "quick" else 40)):
+        trivial = api == "cd" and idx % 3 == 0
+        got_res, got_times = real_resolve(api, ns, plen, s, d, rec, trivial)
         add("resolve %s %s" % ("none" if ns is None else ns, "none" if plen is None else plen),
             got_res, ("resolve", api, ns, plen, s, d, rec))
         if got_res.startswith("ok"):
@@ -367,6 +409,16 @@ def correspondence(res, tier, rng):
             res.fail("truncated:" + what,
                      {"api": what, "requested": "7 grid points 0.0 ... 1.5 (dt 0.25), Hamiltonian "
                       "raises for t > 1.1", "outcome": outcome})
+
+    grid7 = [0.25 * k for k in range(7)]
+    for api, first, times in resumed_runs():
+        res.case("resume:" + api, True, None)
+        res.count("resume-after-fault")
+        if first != "raised" or times != grid7:
+            res.fail("resume:%s after a transient failure" % api,
+                     {"api": api, "sequence": "compute(1.5) with a Hamiltonian failing once for t > 1.1; "
+                      "compute(1.5) again", "first_call": first, "got_times": times,
+                      "expected_times": grid7})
 
     out = fw.run_driver(PID, lines)
     if len(out) != len(lines):
@@ -497,8 +549,9 @@ def search(res, rng=None):
                           "got_times": got})
     # (2b) num_steps given explicitly (zero included) is the number of steps taken; not given
     #      means the shortest finite process tensor; too long is refused
-    for (api, ns, plen, s, d, rec) in num_steps_cases(rng, 12):
-        got_res, got = real_resolve(api, ns, plen, s, d, rec)
+    for idx, (api, ns, plen, s, d, rec) in enumerate(num_steps_cases(rng, 12)):
+        trivial = api == "cd" and idx % 2 == 1
+        got_res, got = real_resolve(api, ns, plen, s, d, rec, trivial)
         if ns is not None:
             want_n = ns if (plen is None or ns <= plen) else None
         else:
@@ -512,7 +565,8 @@ def search(res, rng=None):
             continue
         want = [s + k * d for k in range(want_n + 1)] if rec else [s + want_n * d]
         if got != want:
-            res.fail("num-steps:%s num_steps=%s pt_len=%s record_all=%s" % (api, ns, plen, rec),
+            res.fail("num-steps:%s num_steps=%s pt_len=%s record_all=%s%s"
+                     % (api, ns, plen, rec, " next to a TrivialProcessTensor" if trivial else ""),
                      {"api": api, "num_steps": ns, "shortest_pt": plen, "start_time": s, "dt": d,
                       "record_all": rec, "expected_times": want, "got": got_res, "got_times": got,
                       "how": "%s(num_steps=%r, start_time=%r, dt=%r, record_all=%r) next to "
